@@ -82,10 +82,10 @@ def build_array(sp, axes=None):
     for d, lab, k in zip(sp["dims"], sp["labels"], sp["kinds"]):
         a = da.Axis(gen.np_labels(lab, k), d)
         if axes is not None and d in axes:
-            a._attrs.update(axes[d][2])
+            a.attrs.update(axes[d][2])
         ax.append(a)
     arr = da.DimArray(np.array(sp["values"], copy=True), axes=ax)
-    arr._attrs.update(sp.get("attrs", {}))
+    arr.attrs.update(sp.get("attrs", {}))
     return arr
 
 
@@ -96,7 +96,7 @@ def build_dataset(dsp):
         for d in dsp["dims"]:
             lab, kind, at = dsp["axes"][d]
             ax = da.Axis(gen.np_labels(lab, kind), d)
-            ax._attrs.update(at)
+            ax.attrs.update(at)
             ds.axes.append(ax)
     for k, sp in dsp["vars"].items():
         ds[k] = build_array(sp, dsp["axes"])
